@@ -60,10 +60,13 @@ func runChild() {
 	}
 	Quiet()
 	switch spec.Role {
-	case "server":
+	case "server", "c01":
 		srv := mcp.NewStdioServer("verif-child", "1", mcp.WithStdioServerLogger(nopLogger{}))
 		w := &World{Calls: map[string]int{}}
 		w.Register(RegistrarOf(srv), spec.Reg)
+		if spec.Role == "c01" {
+			c01Register(w, RegistrarOf(srv))
+		}
 		if spec.C02 != nil {
 			registerC02(RegistrarOf(srv), *spec.C02, nil)
 		}
@@ -81,12 +84,26 @@ func runFakeChild(spec ChildSpec) {
 	if spec.Log != "" {
 		logf, _ = os.OpenFile(spec.Log, os.O_CREATE|os.O_WRONLY|os.O_APPEND, 0o644)
 	}
+	// stdout is written by a separate goroutine from an unbounded queue: the puppet never stops reading stdin
 	var mu sync.Mutex
-	out := bufio.NewWriter(os.Stdout)
+	cond := sync.NewCond(&mu)
+	var queue []string
+	go func() {
+		for {
+			mu.Lock()
+			for len(queue) == 0 {
+				cond.Wait()
+			}
+			s := queue[0]
+			queue = queue[1:]
+			mu.Unlock()
+			os.Stdout.WriteString(s)
+		}
+	}()
 	write := func(s string) {
 		mu.Lock()
-		out.WriteString(s)
-		out.Flush()
+		queue = append(queue, s)
+		cond.Broadcast()
 		mu.Unlock()
 	}
 	if spec.Preamble != "" {
@@ -139,6 +156,16 @@ func runFakeChild(spec ChildSpec) {
 			}
 		}
 		if err != nil {
+			// drain pending output before leaving
+			for i := 0; i < 200; i++ {
+				mu.Lock()
+				n := len(queue)
+				mu.Unlock()
+				if n == 0 {
+					break
+				}
+				time.Sleep(5 * time.Millisecond)
+			}
 			os.Exit(0)
 		}
 	}
@@ -148,7 +175,16 @@ func runFakeChild(spec ChildSpec) {
 func ChildCommand(spec ChildSpec) mcp.StdioServerParameters {
 	b, _ := json.Marshal(spec)
 	exe, _ := os.Executable()
-	return mcp.StdioServerParameters{Command: exe, Args: []string{"-test.run", "^$"}, Env: map[string]string{"VERIF_CHILD": spec.Role + "x", "VERIF_CHILD_SPEC": string(b)}}
+	arg := string(b)
+	if len(arg) > 8000 {
+		f, err := os.CreateTemp(outDir(), "childspec-*.json")
+		if err == nil {
+			f.Write(b)
+			f.Close()
+			arg = "@" + f.Name()
+		}
+	}
+	return mcp.StdioServerParameters{Command: exe, Args: []string{"-test.run", "^$"}, Env: map[string]string{"VERIF_CHILD": spec.Role + "x", "VERIF_CHILD_SPEC": arg}}
 }
 
 // ChildLogLines counts the lines a fake child has received so far.
